@@ -342,6 +342,10 @@ func runC10(c *Ctx) {
 							fresh = true
 						}
 					}
+					// uuid.NewString() is uuid.New().String()
+					if CallResult(st.Val, 0, "github.com/google/uuid.NewString") != nil && (Dominates(st, a) || st.Block() == a.Block()) {
+						fresh = true
+					}
 				}
 				c.Check("C10.A", "Value", p, a.Pos(), ok && fresh, "Value = the freshly generated uuid.New().String() session ID", "the cookie value is not the freshly generated UUID session ID ("+PathOf(v)+")")
 			} else {
